@@ -1,0 +1,17 @@
+//go:build verif
+
+package app
+
+import (
+	appsKeeper "github.com/pokt-network/pocket-core/x/apps/keeper"
+	nodesKeeper "github.com/pokt-network/pocket-core/x/nodes/keeper"
+	pocketKeeper "github.com/pokt-network/pocket-core/x/pocketcore/keeper"
+)
+
+// Accessors for the verification harness (build tag verif only): the keepers are unexported
+// fields, and the harness must call the same instances the application uses (SendClaimTx,
+// SendProofTx run in an EndBlock goroutine in production; the harness calls them at chosen points).
+
+func (app *PocketCoreApp) VerifPocketKeeper() pocketKeeper.Keeper { return app.pocketKeeper }
+func (app *PocketCoreApp) VerifNodesKeeper() nodesKeeper.Keeper   { return app.nodesKeeper }
+func (app *PocketCoreApp) VerifAppsKeeper() appsKeeper.Keeper     { return app.appsKeeper }
